@@ -54,7 +54,7 @@ def parse_out(text, header=True):
 def close(a, b):
     a, b = numpy.asarray(a, float), numpy.asarray(b, float)
     with numpy.errstate(all="ignore"):
-        return (numpy.abs(a - b) <= 1.5e-6 + 2e-6 * numpy.abs(b)) | (numpy.isnan(a) & numpy.isnan(b))     # NaN cells (adiabatic values where C_V<=0) must come back as NaN
+        return (numpy.abs(a - b) <= 1.5e-6 + 2e-6 * numpy.abs(b)) | (numpy.isnan(a) & numpy.isnan(b)) | (a == b)     # NaN / +-inf cells (adiabatic values where C_V<=0) must come back as they are
 
 
 def run(ctx):
